@@ -30,7 +30,7 @@ EXPLANATION = (
     'NOT decided: that a stored setting actually shapes later packets (duration, bandwidth cap, forced channels, '
     'LOWDELAY => MDCT only) - statements about run-time values of the mode decision chain.')
 
-CONFIGS = {'quick': ['float'], 'thorough': ['float', 'fixed', 'custom']}
+CONFIGS = {'quick': ['float', 'fixed'], 'thorough': ['float', 'fixed', 'custom']}
 
 SPEC = json.load(open(os.path.join(compdb.VERIF, 'spec', 'ctl_ranges.json')))
 
@@ -92,6 +92,8 @@ def setup(rep, tier):
     rep.minimum('R11.12', 1)
     rep.minimum('R11.13', 2)
     rep.minimum('R11.14', 10)
+    rep.minimum('R11.15', 1)
+    rep.minimum('R11.16', 3)
     rep.trusted.append('spec/ctl_ranges.json (hand transcription of include/opus_defines.h)')
 
 
@@ -1057,7 +1059,102 @@ def r11_13(rep, prog):
     return n
 
 
+# ------------------------------------------------------------------ R11.15
+def r11_15(rep, prog):
+    """"its bandwidth never exceeds the forced or maximum bandwidth": the Opus layer turns both into SILK's desired internal
+    rate; SILK's rate state machine moves one step at a time towards it.  Partitioned interval analysis of
+    silk_control_audio_bandwidth over every (current, desired, maximum, API) rate: the rate it returns never lies above
+    both the current and the desired one."""
+    from .. import absint
+    fname = 'silk_control_audio_bandwidth'
+    if not prog.has_fn(fname):
+        rep.unresolved('R11.15', '%s: %s not found' % (prog.config, fname))
+        return 0
+    f = prog.fn(fname)
+    rep.functions.add(fname)
+    keys = {}
+    for n in f.all_nodes():
+        if sx.kind(n) == 'field' and n[3] in ('fs_kHz', 'desiredInternal_fs_Hz', 'maxInternal_fs_Hz', 'minInternal_fs_Hz', 'API_fs_Hz') and sx.kind(sx.strip(n[1])) == 'param':
+            keys[n[3]] = sx.key(n)
+    inst = '%s:%s never returns a rate above both the current and the desired one' % (prog.config, fname)
+    if len(keys) < 5:
+        rep.unresolved('R11.15', inst + ': state fields not found (%s)' % sorted(keys))
+        return 0
+    n = 0
+    bad = None
+    for o in (8, 12, 16):
+        for d in (8000, 12000, 16000):
+            for m in (8000, 12000, 16000):
+                if d > m:
+                    continue
+                for api in (8000, 12000, 16000, 24000, 48000):
+                    entry = {keys['fs_kHz']: absint.const(o), keys['desiredInternal_fs_Hz']: absint.const(d), keys['maxInternal_fs_Hz']: absint.const(m),
+                             keys['minInternal_fs_Hz']: absint.const(8000), keys['API_fs_Hz']: absint.const(api)}
+                    an = absint.Analyzer(prog, f, entry_state=entry, havoc_fields_on_call=False, preserve_fields=tuple(keys))
+                    hi = None
+                    for b, i, r in T.returns_of(an.cf):
+                        st = an.state_before_node(b, i, r)
+                        if st is None or len(r) < 2:
+                            continue
+                        v = an.ev(r[1], st)
+                        hi = absint.hi(v) if hi is None else max(hi, absint.hi(v))
+                    n += 1
+                    if hi is None:
+                        continue
+                    if hi * 1000 > max(d, o * 1000) and bad is None:
+                        bad = (o, d, m, api, hi)
+    if bad:
+        rep.violated('R11.15', inst, f.where(), 'at %d kHz with desired rate %d Hz (maximum %d, API %d) the function can return %d kHz: packets are signalled with a bandwidth above the one the maximum / forced bandwidth setting asked for' % bad,
+                     key='silk-rate-overshoot')
+    else:
+        rep.holds('R11.15', inst, f.where(), '%d (current, desired, maximum, API) cases' % n, n=1)
+    return n
+
+
+# ------------------------------------------------------------------ R11.16
+def r11_16(rep, prog):
+    """"the packet's duration is the requested one": every public encode entry point (16-bit, 24-bit, float; the set differs
+    between the float, fixed-point and RES24 builds) selects the frame size with frame_size_select() and hands THAT to the
+    native encoder as the size to code, and its own argument as the size of the analysis buffer.  Sibling agreement of the
+    call-site arguments, in each configuration."""
+    n = 0
+    if not prog.has_fn('opus_encode_native'):
+        return 0
+    nat = prog.fn('opus_encode_native')
+    kf, ka = nat.param_index('frame_size'), nat.param_index('analysis_size')
+    if ka is None:
+        ka = nat.param_index('analysis_frame_size')
+    if kf is None or ka is None:
+        rep.unresolved('R11.16', '%s: opus_encode_native parameters not found' % prog.config)
+        return 0
+    for f in prog.functions_all:
+        if not f.file.startswith('src/opus_encoder'):
+            continue
+        calls = [c for c in f.calls() if sx.callee_name(c) == 'opus_encode_native']
+        sel = decide.find_assign(f, 'frame_size', lambda e: any(sx.kind(y) == 'call' and sx.callee_name(y) == 'frame_size_select' for y in sx.walk(e)))
+        if not calls or not any(sx.callee_name(c) == 'frame_size_select' for c in f.calls()):
+            continue
+        pa = f.param_index('analysis_frame_size')
+        for c in calls:
+            n += 1
+            rep.functions.add(f.name)
+            a_f, a_a = sx.strip(c[2][kf]), sx.strip(c[2][ka])
+            inst = '%s:%s codes the frame size it selected and analyses the buffer it was given' % (prog.config, f.name)
+            where = '%s:%s' % (f.file, sx.line(c))
+            sel_locals = {sx.strip(lv)[2] for lv, r in sel if sx.kind(sx.strip(lv)) == 'local'}
+            ok_f = sx.kind(a_f) == 'local' and a_f[2] in sel_locals
+            ok_a = pa is not None and sx.kind(a_a) == 'param' and a_a[1] == pa
+            if ok_f and ok_a:
+                rep.holds('R11.16', inst, where, 'frame_size = `%s`, analysis size = `%s`' % (sx.show(a_f), sx.show(a_a)))
+            else:
+                rep.violated('R11.16', inst, where, 'passes `%s` as the size to code and `%s` as the analysis size: with OPUS_SET_EXPERT_FRAME_DURATION the packet lasts as long as the buffer handed in, not as long as requested' % (sx.show(a_f)[:30], sx.show(a_a)[:30]),
+                             key='%s:frame-size-argument' % f.name)
+    return n
+
+
 def check(rep, prog, tier):
+    r11_16(rep, prog)
+    r11_15(rep, prog)
     r11_13(rep, prog)
     r11_12(rep, prog)
     r11_10(rep, prog)
